@@ -797,7 +797,12 @@ impl<'a> LiveEvents<'a> {
 
             match raw {
                 Event::DocumentStart(_) => {
-                    // Found the start of the next document
+                    // Found the start of the next document. Let the budget see the boundary so
+                    // that per-document accounting restarts even though the rest of the failed
+                    // document was skipped without being counted.
+                    if let Some(budget) = self.budget.as_mut() {
+                        let _ = budget.observe(&raw);
+                    }
                     self.reset_document_state();
                     self.produced_any_in_doc = false;
                     return true;
